@@ -280,6 +280,99 @@ func runC08(c *eng.Ctx) {
 				okGiven = true
 			}
 		}
+		if !okDefault || !okGiven {
+			// scenario form: with the argument assumed nil (resp. non-nil) the value copied into EventTypes by the last
+			// store on every path is the literal {Added, Modified, Deleted} (resp. the argument itself); the argument may
+			// be replaced by the default first and copied once (`if types == nil { types = default }; f = copy(types)`)
+			copied := func(e ast.Expr) ast.Expr {
+				e = ast.Unparen(e)
+				if ap := builtinCall(info, e, "append"); ap != nil && len(ap.Args) == 2 && ap.Ellipsis.IsValid() {
+					if cl, isL := ast.Unparen(ap.Args[0]).(*ast.CompositeLit); isL && len(cl.Elts) == 0 {
+						return ap.Args[1]
+					}
+					return nil
+				}
+				if cl, isC := e.(*ast.CallExpr); isC && eng.IsPkgFunc(eng.CalleeOf(info, cl), "slices", "Clone") && len(cl.Args) == 1 {
+					return cl.Args[0]
+				}
+				return e
+			}
+			decide := func(isNil bool, want func(ast.Expr) bool) bool {
+				assumed := func(fc eng.Fact) bool {
+					x, y, eq, isEq := eng.EqAtom(fc)
+					if !isEq {
+						return false
+					}
+					for i := 0; i < 2; i++ {
+						if eng.SelObj(info, x) == types.Object(prm) && eng.IsNil(info, y) {
+							return eq == isNil
+						}
+						x, y = y, x
+					}
+					return false
+				}
+				inf := g.Infeasible(assumed)
+				feasible := g.Reach(eng.Query{FromEntry: true, Assume: assumed, AvoidEdge: inf})
+				var stores []*eng.GNode
+				vals := map[*eng.GNode]ast.Expr{}
+				for _, n := range g.Nodes {
+					if as, isA := n.Node.(*ast.AssignStmt); isA && len(as.Lhs) == 1 && len(as.Rhs) == 1 && eng.IsField(info, as.Lhs[0], eventTypes) && feasible[n] {
+						stores = append(stores, n)
+						vals[n] = as.Rhs[0]
+					}
+				}
+				isStore := map[*eng.GNode]bool{}
+				for _, n := range stores {
+					isStore[n] = true
+				}
+				// no feasible path to an exit without a store
+				for n := range g.Reach(eng.Query{FromEntry: true, Assume: assumed, AvoidEdge: inf, AvoidNode: func(m *eng.GNode) bool { return isStore[m] }}) {
+					if n.Exit && !isStore[n] {
+						return false
+					}
+				}
+				last := 0
+				for _, st := range stores {
+					isLast := false
+					for n := range g.Reach(eng.Query{From: []*eng.GNode{st}, Assume: assumed, AvoidEdge: inf, AvoidNode: func(m *eng.GNode) bool { return isStore[m] }}) {
+						if n.Exit && !isStore[n] {
+							isLast = true
+						}
+					}
+					if !isLast {
+						continue
+					}
+					last++
+					x := copied(vals[st])
+					if x == nil {
+						return false
+					}
+					src, _, tup, uniq := valueAt(g, info, f.Decl.Body, st, x, assumed)
+					if !uniq || tup >= 0 || src == nil || !want(src) {
+						return false
+					}
+				}
+				return last > 0
+			}
+			isDefaultLit := func(e ast.Expr) bool {
+				cl, isC := ast.Unparen(e).(*ast.CompositeLit)
+				if !isC || len(cl.Elts) != 3 {
+					return false
+				}
+				seen := map[types.Object]bool{}
+				for _, el := range cl.Elts {
+					o := eng.SelObj(info, el)
+					if !want[o] {
+						return false
+					}
+					seen[o] = true
+				}
+				return len(seen) == 3
+			}
+			if decide(true, isDefaultLit) && decide(false, func(e ast.Expr) bool { return eng.SelObj(info, e) == types.Object(prm) }) {
+				okDefault, okGiven = true, true
+			}
+		}
 		r3.Check(okDefault, f.Key+" default", f.Decl.Pos(), "nil -> {Added, Modified, Deleted}", "the default event types (executeHookOnEvent absent) are not exactly Added, Modified and Deleted")
 		r3.Check(okGiven, f.Key+" given", f.Decl.Pos(), "a given list is stored as is", "a configured executeHookOnEvent list is not stored as given")
 	}
